@@ -892,4 +892,534 @@ theorem noRef_after {e : Bool} (g : List SepItem) (hg : sepOK g) (r : List STree
         exact run_ne_R c _ (by intro e; subst e; revert hcd; decide)
       | _ => simp [uintLike] at hu
 
+/-! ### `parseObj` on whole trees -/
+
+mutual
+/-- fuel that certainly suffices for `parseObj` on the tree -/
+def need : STree → Nat
+  | .arr _ items _ => 1 + needList items
+  | .dict _ es _ => 1 + needEntries es
+  | _ => 1
+def needList : List STree → Nat
+  | [] => 1
+  | t :: r => 1 + need t + needList r
+def needEntries : List (List NameItem × List SepItem × STree) → Nat
+  | [] => 1
+  | (_, _, v) :: r => 1 + need v + needEntries r
+end
+
+/-- an unsigned integer token that is not part of a reference node -/
+def uintInt : STree → Bool
+  | .int sign _ _ => sign.isEmpty
+  | _ => false
+
+theorem renderStr_length : ∀ (items : List StrItem), items.length ≤ (renderStr items).length
+  | [] => by simp [renderStr]
+  | i :: r => by
+    obtain ⟨c, tl, h⟩ := render_ne i
+    have := renderStr_length r
+    simp only [renderStr, List.length_cons, List.length_append, h]
+    omega
+
+theorem hexbody_not_60 : ∀ c : UInt8, (!(isHEX c || isGapByte c) || c != 60) = true :=
+  forall_byte _ (by decide +kernel)
+
+theorem po_str (items : List StrItem) (rest : Bytes) (f : Nat) (hok : ∀ i ∈ items, i.ok) (hch : chainOK items)
+    (hbal : depthAfter 0 items = some 0) :
+    Syntax.parseObj (f + 1) ((40 :: (renderStr items ++ [41])) ++ rest) = some (.str (strValue items), rest) := by
+  have e : (40 :: (renderStr items ++ [41])) ++ rest = 40 :: (renderStr items ++ 41 :: rest) := by simp
+  have hl := renderStr_length items
+  rw [e]
+  unfold Syntax.parseObj
+  simp only
+  rw [lit_items items _ 0 rest hok hch hbal (by simp only [List.length_append, List.length_cons]; omega)]
+  rfl
+
+theorem po_name (items : List NameItem) (rest : Bytes) (f : Nat) (hok : nameOK items) (hr : isDW (rest.headD 32) = true) :
+    Syntax.parseObj (f + 1) ((47 :: renderName items) ++ rest) = some (.name (nameValue items), rest) := by
+  simp only [List.cons_append]
+  unfold Syntax.parseObj
+  simp only
+  rw [parseName_items items rest hok hr]
+  rfl
+
+theorem po_hex_aux (x : UInt8) (tl : Bytes) (hx : x ≠ 60) (f : Nat) :
+    Syntax.parseObj (f + 1) (60 :: x :: tl) =
+      (fun r => (Syntax.Obj.str r.1, r.2)) <$> Syntax.parseHexBody none (x :: tl) := by
+  unfold Syntax.parseObj
+  split
+  · rename_i heq; simp at heq
+  · rename_i heq; simp at heq
+  · rename_i heq; simp at heq
+  · rename_i heq; simp at heq
+  · rename_i heq; simp at heq; exact absurd heq.1 hx
+  · rename_i heq
+    simp only [List.cons.injEq, true_and] at heq
+    rw [← heq]
+  · rename_i heq
+    simp only [List.cons.injEq] at heq
+    obtain ⟨rfl, rfl⟩ := heq
+    simp_all
+
+theorem po_hex (body rest : Bytes) (f : Nat) (hb : ∀ c ∈ body, isHEX c = true ∨ isGapByte c = true) :
+    Syntax.parseObj (f + 1) ((60 :: (body ++ [62])) ++ rest) = some (.str (pairUp (hexDigitsOf body)), rest) := by
+  have hp := parseHex_body body none rest hb
+  rw [← hexDigits_eq body hb] at hp
+  have e : (60 :: (body ++ [62])) ++ rest = 60 :: (body ++ 62 :: rest) := by simp
+  rw [e]
+  cases body with
+  | nil =>
+    simp only [List.nil_append] at hp ⊢
+    rw [po_hex_aux 62 rest (by decide), hp]; rfl
+  | cons c t =>
+    have hc : c ≠ 60 := by
+      intro e; subst e
+      have h60a : isHEX 60 = false := by decide +kernel
+      rcases hb 60 (by simp) with h | h
+      · rw [h60a] at h; cases h
+      · revert h; decide
+    simp only [List.cons_append] at hp ⊢
+    rw [po_hex_aux c _ hc, hp]; simp [pairFrom]
+
+/-! ### unfolding lemmas for the containers -/
+
+theorem po_arr_aux (t : Bytes) (f : Nat) :
+    Syntax.parseObj (f + 1) (91 :: t) = (fun r => (Syntax.Obj.arr r.1, r.2)) <$> Syntax.parseItems f (Syntax.skipWsAll t) := by
+  unfold Syntax.parseObj
+  split
+  · rename_i heq; simp at heq
+  · rename_i heq; simp at heq
+  · rename_i heq; simp at heq
+  · rename_i heq; simp only [List.cons.injEq, true_and] at heq; rw [← heq]
+  · rename_i heq; simp at heq
+  · rename_i heq; simp at heq
+  · rename_i heq
+    simp only [List.cons.injEq] at heq
+    obtain ⟨rfl, rfl⟩ := heq
+    simp_all
+
+theorem po_dict_aux (t : Bytes) (f : Nat) (es : List (Bytes × Syntax.Obj)) (rest : Bytes)
+    (h : Syntax.parseEntries f (Syntax.skipWsAll t) = some (es, rest)) (hnd : (es.map (·.1)).Nodup) :
+    Syntax.parseObj (f + 1) (60 :: 60 :: t) = some (.dict es, rest) := by
+  unfold Syntax.parseObj
+  split
+  · rename_i heq; simp at heq
+  · rename_i heq; simp at heq
+  · rename_i heq; simp at heq
+  · rename_i heq; simp at heq
+  · rename_i heq
+    simp only [List.cons.injEq, true_and] at heq
+    rw [← heq, h]
+    simp [hnd]
+  · rename_i h5 heq
+    simp only [List.cons.injEq, true_and] at heq
+    exact (h5 t heq.symm).elim
+  · rename_i heq
+    simp only [List.cons.injEq] at heq
+    obtain ⟨rfl, rfl⟩ := heq
+    simp_all
+
+theorem pi_close (t : Bytes) (f : Nat) : Syntax.parseItems (f + 1) (93 :: t) = some ([], t) := by
+  unfold Syntax.parseItems
+  simp
+
+theorem pi_item (c : UInt8) (tl : Bytes) (f : Nat) (hc : c ≠ 93) (o : Syntax.Obj) (rest : Bytes)
+    (h : Syntax.parseObj f (c :: tl) = some (o, rest)) :
+    Syntax.parseItems (f + 1) (c :: tl) =
+      (fun r => (o :: r.1, r.2)) <$> Syntax.parseItems f (Syntax.skipWsAll rest) := by
+  conv => lhs; unfold Syntax.parseItems
+  split
+  · rename_i heq; simp at heq
+  · rename_i heq; simp at heq; exact absurd heq.1 hc
+  · rw [h]
+
+theorem pe_close (t : Bytes) (f : Nat) : Syntax.parseEntries (f + 1) (62 :: 62 :: t) = some ([], t) := by
+  unfold Syntax.parseEntries
+  simp
+
+theorem pe_entry (t : Bytes) (f : Nat) (k : Bytes) (r1 : Bytes) (v : Syntax.Obj) (r2 : Bytes)
+    (hk : Syntax.parseNameBody t = some (k, r1)) (hv : Syntax.parseObj f (Syntax.skipWsAll r1) = some (v, r2)) :
+    Syntax.parseEntries (f + 1) (47 :: t) =
+      (fun r => ((k, v) :: r.1, r.2)) <$> Syntax.parseEntries f (Syntax.skipWsAll r2) := by
+  conv => lhs; unfold Syntax.parseEntries
+  split
+  · rename_i heq; simp at heq
+  · rename_i heq; simp at heq
+  · rename_i heq
+    simp only [List.cons.injEq, true_and] at heq
+    rw [← heq, hk]
+    simp only [hv]
+  · rename_i h3
+    exact (h3 t rfl).elim
+
+/-! ### the main induction -/
+
+theorem nonreg_dw : ∀ c : UInt8, (Syntax.isRegular c || isDW c) = true := forall_byte _ (by decide +kernel)
+
+theorem dw_of_nonreg (c : UInt8) (h : Syntax.isRegular c = false) : isDW c = true := by
+  have := nonreg_dw c; simpa [h] using this
+
+theorem headD_irrel (l : Bytes) (h : l ≠ []) (a b : UInt8) : l.headD a = l.headD b := by
+  cases l with
+  | nil => exact absurd rfl h
+  | cons _ _ => rfl
+
+theorem headD_append_ne (a b : Bytes) (d1 d2 : UInt8) (h : a ≠ []) : (a ++ b).headD d1 = a.headD d2 := by
+  cases a with
+  | nil => exact absurd rfl h
+  | cons _ _ => rfl
+
+/-- what follows an array item does not continue its last run of regular characters -/
+theorem follow_nonreg {e : Bool} (t : STree) (r : List STree) (h : wfListE e (t :: r)) (hreg : coreReg t = true)
+    (restc : Bytes) :
+    Syntax.isRegular ((renderSep (trailOf t) ++ (bytesList r ++ 93 :: restc)).headD 32) = false := by
+  simp only [wfListE] at h
+  obtain ⟨ht, _, hadj⟩ := h
+  cases hg : trailOf t with
+  | cons i gr =>
+    have := trail_ok t ht
+    rw [hg] at this
+    exact sep_head_nonreg (i :: gr) this (by simp) _
+  | nil =>
+    simp only [renderSep, List.nil_append]
+    cases r with
+    | nil => simp [bytesList]; decide
+    | cons t3 r3 =>
+      have hend : endsReg t = true := by rw [endsReg_eq, hreg, hg]; rfl
+      have := hadj hend (by simp) (93 :: restc)
+      have hne : bytesList (t3 :: r3) ++ 93 :: restc ≠ [] := by simp
+      have e2 : (bytesList (t3 :: r3) ++ 93 :: restc).headD 32 = (bytesList (t3 :: r3) ++ 93 :: restc).headD 0 := by
+        cases hh : bytesList (t3 :: r3) ++ 93 :: restc with
+        | nil => exact absurd hh hne
+        | cons _ _ => rfl
+      rw [e2]; exact dw_not_regular _ this
+
+theorem skip_to_list {e : Bool} (g : List SepItem) (hg : sepOK g) (r : List STree) (hr : wfListE e r) (restc : Bytes) :
+    Syntax.skipWsAll (renderSep g ++ (bytesList r ++ 93 :: restc)) = bytesList r ++ 93 :: restc := by
+  cases r with
+  | nil => simpa [bytesList] using skip_to_close g hg 93 restc (by decide) (by decide)
+  | cons t r2 =>
+    simp only [wfListE] at hr
+    simp only [bytesList, bytesOf_core, List.append_assoc]
+    exact skip_to_core g hg t hr.1 _
+
+theorem skip_to_entries (g : List SepItem) (hg : sepOK g) (es : List (List NameItem × List SepItem × STree)) (restc : Bytes) :
+    Syntax.skipWsAll (renderSep g ++ (bytesEntries es ++ 62 :: 62 :: restc)) = bytesEntries es ++ 62 :: 62 :: restc := by
+  cases es with
+  | nil => simpa [bytesEntries] using skip_to_close g hg 62 (62 :: restc) (by decide) (by decide)
+  | cons x r =>
+    obtain ⟨k, gk, v⟩ := x
+    simp only [bytesEntries, List.cons_append, List.append_assoc]
+    exact skip_to_close g hg 47 _ (by decide) (by decide)
+
+theorem keys_spec : ∀ (es : List (List NameItem × List SepItem × STree)),
+    (specEntries es).map (·.1) = StackParser.keysOf (valueEntries es)
+  | [] => rfl
+  | (k, g, v) :: r => by simp [specEntries, valueEntries, StackParser.keysOf, keys_spec r]
+
+mutual
+/-- The ISO reader accepts the core of every well-formed spelled tree and gives it its value. -/
+theorem parse_tree {e : Bool} : ∀ (t : STree), wfE e t → ∀ (f : Nat) (rest : Bytes), need t ≤ f →
+    (coreReg t = true → Syntax.isRegular (rest.headD 32) = false) →
+    (uintInt t = true → Syntax.parseRefTail rest = none) →
+    Syntax.parseObj f (coreOf t ++ rest) = some (specValue t, rest)
+  | .null g, _, f, rest, hf, hr, _ => by
+    obtain ⟨f', rfl⟩ : ∃ f', f = f' + 1 := ⟨f - 1, by simp [need] at hf; omega⟩
+    have := po_regular 110 [117, 108, 108] rest f' (by intro x hx; simp at hx; rcases hx with rfl | rfl | rfl | rfl <;> decide) (hr rfl)
+    simpa [coreOf, wNull, specValue] using this.trans (regObj_null rest)
+  | .bool b g, _, f, rest, hf, hr, _ => by
+    obtain ⟨f', rfl⟩ : ∃ f', f = f' + 1 := ⟨f - 1, by simp [need] at hf; omega⟩
+    cases b with
+    | true =>
+      have := po_regular 116 [114, 117, 101] rest f' (by intro x hx; simp at hx; rcases hx with rfl | rfl | rfl | rfl <;> decide) (hr rfl)
+      simpa [coreOf, kwTrue, specValue] using this.trans (regObj_true rest)
+    | false =>
+      have := po_regular 102 [97, 108, 115, 101] rest f' (by intro x hx; simp at hx; rcases hx with rfl | rfl | rfl | rfl | rfl <;> decide) (hr rfl)
+      simpa [coreOf, kwFalse, specValue] using this.trans (regObj_false rest)
+  | .int sign ds g, h, f, rest, hf, hr, hu => by
+    obtain ⟨f', rfl⟩ : ∃ f', f = f' + 1 := ⟨f - 1, by simp [need] at hf; omega⟩
+    simp only [wfE, digitsOK] at h
+    obtain ⟨hs, ⟨hne, hd, _⟩, _⟩ := h
+    have hreg : ∀ x ∈ sign ++ ds, Syntax.isRegular x = true := by
+      intro x hx
+      rcases List.mem_append.mp hx with h1 | h1
+      · rcases hs with rfl | rfl | rfl
+        · simp at h1
+        · simp at h1; subst h1; decide
+        · simp at h1; subst h1; decide
+      · exact digit_regular x (hd x h1)
+    obtain ⟨c, t, hct⟩ : ∃ c t, sign ++ ds = c :: t := by
+      cases hh : sign ++ ds with
+      | nil => simp at hh; exact absurd hh.2 hne
+      | cons c t => exact ⟨c, t, rfl⟩
+    have hpo := po_regular c t rest f' (by rw [← hct]; exact hreg) (hr rfl)
+    rw [← hct] at hpo
+    simp only [coreOf, specValue]
+    rw [hpo]
+    exact regObj_int sign ds rest hs hne hd (fun hs0 => hu (by simp [uintInt, hs0]))
+  | .real sign ip fp g, h, f, rest, hf, hr, _ => by
+    obtain ⟨f', rfl⟩ : ∃ f', f = f' + 1 := ⟨f - 1, by simp [need] at hf; omega⟩
+    simp only [wfE] at h
+    obtain ⟨hs, hip, hfp, hne, _⟩ := h
+    have hreg : ∀ x ∈ sign ++ ip ++ 46 :: fp, Syntax.isRegular x = true := by
+      intro x hx
+      simp only [List.mem_append, List.mem_cons] at hx
+      rcases hx with (h1 | h1) | h1 | h1
+      · rcases hs with rfl | rfl | rfl
+        · simp at h1
+        · simp at h1; subst h1; decide
+        · simp at h1; subst h1; decide
+      · exact digit_regular x (hip x h1)
+      · subst h1; decide
+      · exact digit_regular x (hfp x h1)
+    obtain ⟨c, t, hct⟩ : ∃ c t, sign ++ ip ++ 46 :: fp = c :: t := by
+      cases hh : sign ++ ip ++ 46 :: fp with
+      | nil => simp at hh
+      | cons c t => exact ⟨c, t, rfl⟩
+    have hpo := po_regular c t rest f' (by rw [← hct]; exact hreg) (hr rfl)
+    rw [← hct] at hpo
+    simp only [coreOf, specValue]
+    rw [hpo]
+    exact regObj_real sign ip fp rest hs hip hfp hne
+  | .name items g, h, f, rest, hf, hr, _ => by
+    obtain ⟨f', rfl⟩ : ∃ f', f = f' + 1 := ⟨f - 1, by simp [need] at hf; omega⟩
+    simp only [wfE] at h
+    simp only [coreOf, specValue]
+    exact po_name items rest f' h.1 (dw_of_nonreg _ (hr rfl))
+  | .str items g, h, f, rest, hf, _, _ => by
+    obtain ⟨f', rfl⟩ : ∃ f', f = f' + 1 := ⟨f - 1, by simp [need] at hf; omega⟩
+    simp only [wfE] at h
+    simp only [coreOf, specValue]
+    exact po_str items rest f' h.1 h.2.1 h.2.2.1
+  | .hex body g, h, f, rest, hf, _, _ => by
+    obtain ⟨f', rfl⟩ : ∃ f', f = f' + 1 := ⟨f - 1, by simp [need] at hf; omega⟩
+    simp only [wfE] at h
+    simp only [coreOf, specValue]
+    exact po_hex body rest f' h.1
+  | .ref ds g1 gs g2 g3, h, f, rest, hf, hr, _ => by
+    obtain ⟨f', rfl⟩ : ∃ f', f = f' + 1 := ⟨f - 1, by simp [need] at hf; omega⟩
+    simp only [wfE, digitsOK] at h
+    obtain ⟨⟨hne1, hd1, _⟩, hg1, hg1n, ⟨hne2, hd2, _⟩, hg2, hg2n, _⟩ := h
+    obtain ⟨c, t, hct⟩ : ∃ c t, ds = c :: t := by cases ds with
+      | nil => exact absurd rfl hne1
+      | cons c t => exact ⟨c, t, rfl⟩
+    have e1 : coreOf (.ref ds g1 gs g2 g3) ++ rest = ds ++ (renderSep g1 ++ (gs ++ (renderSep g2 ++ 82 :: rest))) := by
+      simp [coreOf, List.append_assoc]
+    have hpo := po_regular c t (renderSep g1 ++ (gs ++ (renderSep g2 ++ 82 :: rest))) f'
+      (by rw [← hct]; exact fun x hx => digit_regular x (hd1 x hx)) (sep_head_nonreg g1 hg1 hg1n _)
+    rw [← hct] at hpo
+    rw [e1, hpo]
+    have hk := num_head c (Or.inl (hd1 c (by simp [hct])))
+    have hnk := not_kw c t hk.1 hk.2.1 hk.2.2
+    rw [← hct] at hnk
+    have hu := unsignedInt_digits ds hne1 hd1
+    have hrt := refTail_ok g1 gs g2 rest hg1 hg1n hne2 hd2 hg2 hg2n (hr rfl)
+    simp [Syntax.regObj, hnk.1, hnk.2.1, hnk.2.2, hu, hrt, specValue]
+  | .arr g0 items g1, h, f, rest, hf, _, _ => by
+    obtain ⟨f', rfl⟩ : ∃ f', f = f' + 1 := ⟨f - 1, by simp [need] at hf; omega⟩
+    simp only [wfE] at h
+    obtain ⟨hg0, hitems, _⟩ := h
+    have e1 : coreOf (.arr g0 items g1) ++ rest = 91 :: (renderSep g0 ++ (bytesList items ++ 93 :: rest)) := by
+      simp [coreOf, List.append_assoc]
+    rw [e1, po_arr_aux, skip_to_list g0 hg0 items hitems rest,
+      parse_items items hitems f' rest (by simp [need] at hf; omega)]
+    simp [specValue]
+  | .dict g0 es g1, h, f, rest, hf, _, _ => by
+    obtain ⟨f', rfl⟩ : ∃ f', f = f' + 1 := ⟨f - 1, by simp [need] at hf; omega⟩
+    simp only [wfE] at h
+    obtain ⟨hg0, hes, _, hnd, _⟩ := h
+    have e1 : coreOf (.dict g0 es g1) ++ rest = 60 :: 60 :: (renderSep g0 ++ (bytesEntries es ++ 62 :: 62 :: rest)) := by
+      simp [coreOf, List.append_assoc]
+    have hpe := parse_entries es hes f' rest (by simp [need] at hf; omega)
+    rw [e1]
+    rw [po_dict_aux _ f' (specEntries es) rest (by rw [skip_to_entries g0 hg0 es rest]; exact hpe)
+      (by rw [keys_spec]; exact hnd)]
+    simp [specValue]
+theorem parse_items {e : Bool} : ∀ (items : List STree), wfListE e items → ∀ (f : Nat) (restc : Bytes),
+    needList items ≤ f →
+    Syntax.parseItems f (bytesList items ++ 93 :: restc) = some (specList items, restc)
+  | [], _, f, restc, hf => by
+    obtain ⟨f', rfl⟩ : ∃ f', f = f' + 1 := ⟨f - 1, by simp [needList] at hf; omega⟩
+    simpa [bytesList, specList] using pi_close restc f'
+  | t :: r, h, f, restc, hf => by
+    obtain ⟨f', rfl⟩ : ∃ f', f = f' + 1 := ⟨f - 1, by simp [needList] at hf; omega⟩
+    have h' := h
+    simp only [wfListE] at h
+    obtain ⟨ht, hr, _⟩ := h
+    have hgt := trail_ok t ht
+    obtain ⟨c, tl, hct, _, _, _, h93⟩ := core_head t ht
+    have e1 : bytesList (t :: r) ++ 93 :: restc = coreOf t ++ (renderSep (trailOf t) ++ (bytesList r ++ 93 :: restc)) := by
+      simp [bytesList, bytesOf_core, List.append_assoc]
+    have hpt := parse_tree t ht f' (renderSep (trailOf t) ++ (bytesList r ++ 93 :: restc))
+      (by simp [needList] at hf; omega) (fun hreg => follow_nonreg t r h' hreg restc)
+      (fun _ => noRef_after (trailOf t) hgt r hr restc)
+    rw [e1]
+    have e2 : coreOf t ++ (renderSep (trailOf t) ++ (bytesList r ++ 93 :: restc)) =
+        c :: (tl ++ (renderSep (trailOf t) ++ (bytesList r ++ 93 :: restc))) := by rw [hct]; rfl
+    rw [e2] at hpt ⊢
+    rw [pi_item c _ f' h93 _ _ hpt, skip_to_list (trailOf t) hgt r hr restc,
+      parse_items r hr f' restc (by simp [needList] at hf; omega)]
+    simp [specList]
+theorem parse_entries {e : Bool} : ∀ (es : List (List NameItem × List SepItem × STree)), wfEntriesE e es →
+    ∀ (f : Nat) (restc : Bytes), needEntries es ≤ f →
+    Syntax.parseEntries f (bytesEntries es ++ 62 :: 62 :: restc) = some (specEntries es, restc)
+  | [], _, f, restc, hf => by
+    obtain ⟨f', rfl⟩ : ∃ f', f = f' + 1 := ⟨f - 1, by simp [needEntries] at hf; omega⟩
+    simpa [bytesEntries, specEntries] using pe_close restc f'
+  | (k, g, v) :: r, h, f, restc, hf => by
+    obtain ⟨f', rfl⟩ : ∃ f', f = f' + 1 := ⟨f - 1, by simp [needEntries] at hf; omega⟩
+    simp only [wfEntriesE] at h
+    obtain ⟨hk, hg, hgv, hv, hr⟩ := h
+    have hgt := trail_ok v hv
+    -- what follows the value: the next key or `>>`, after the value's separator
+    let Z : Bytes := renderSep (trailOf v) ++ (bytesEntries r ++ 62 :: 62 :: restc)
+    have hZ0 : ∃ x tlx, bytesEntries r ++ 62 :: 62 :: restc = x :: tlx ∧ (x = 47 ∨ x = 62) := by
+      cases r with
+      | nil => exact ⟨62, 62 :: restc, rfl, Or.inr rfl⟩
+      | cons y r2 =>
+        obtain ⟨k2, g2, v2⟩ := y
+        exact ⟨47, renderName k2 ++ (renderSep g2 ++ (bytesOf v2 ++ (bytesEntries r2 ++ 62 :: 62 :: restc))),
+          by simp [bytesEntries], Or.inl rfl⟩
+    obtain ⟨x, tlx, hx, hx2⟩ := hZ0
+    have hxw : Syntax.isWhite x = false ∧ x ≠ 37 ∧ Syntax.isRegular x = false := by
+      rcases hx2 with rfl | rfl <;> exact ⟨by decide, by decide, by decide⟩
+    have hZreg : Syntax.isRegular (Z.headD 32) = false := by
+      cases hgv' : trailOf v with
+      | cons i gr =>
+        have := hgt; rw [hgv'] at this
+        show Syntax.isRegular ((renderSep (trailOf v) ++ _).headD 32) = false
+        rw [hgv']; exact sep_head_nonreg (i :: gr) this (by simp) _
+      | nil =>
+        show Syntax.isRegular ((renderSep (trailOf v) ++ _).headD 32) = false
+        rw [hgv', hx]; simpa [renderSep] using hxw.2.2
+    have hZref : Syntax.parseRefTail Z = none := by
+      apply refTail_none_1
+      show Syntax.unsignedInt (Syntax.takeRegular (Syntax.skipWsAll (renderSep (trailOf v) ++ _))).1 = none
+      rw [hx, skip_to_close (trailOf v) hgt x tlx hxw.1 hxw.2.1, takeRegular_cons_nonreg x tlx hxw.2.2]
+      rfl
+    -- the key
+    have hkey : Syntax.parseNameBody (renderName k ++ (renderSep g ++ (bytesOf v ++ (bytesEntries r ++ 62 :: 62 :: restc))))
+        = some (nameValue k, renderSep g ++ (bytesOf v ++ (bytesEntries r ++ 62 :: 62 :: restc))) := by
+      apply parseName_items k _ hk
+      cases g with
+      | cons i gr =>
+        have := sep_head_dw (i :: gr) hg (by simp) (bytesOf v ++ (bytesEntries r ++ 62 :: 62 :: restc))
+        have hne : renderSep (i :: gr) ++ (bytesOf v ++ (bytesEntries r ++ 62 :: 62 :: restc)) ≠ [] := by
+          have hp := renderSep_pos (i :: gr) (by simp)
+          intro e0
+          have := congrArg List.length e0
+          simp only [List.length_append, List.length_nil] at this
+          omega
+        have e := headD_irrel _ hne 32 0
+        rw [e]; exact this
+      | nil =>
+        have := hgv rfl (bytesEntries r ++ 62 :: 62 :: restc)
+        obtain ⟨c, tl, hct, _⟩ := core_head v hv
+        have hne : bytesOf v ++ (bytesEntries r ++ 62 :: 62 :: restc) ≠ [] := by
+          rw [bytesOf_core, hct]; simp
+        simp only [renderSep, List.nil_append]
+        have e : (bytesOf v ++ (bytesEntries r ++ 62 :: 62 :: restc)).headD 32
+            = (bytesOf v ++ (bytesEntries r ++ 62 :: 62 :: restc)).headD 0 := by
+          cases hh : bytesOf v ++ (bytesEntries r ++ 62 :: 62 :: restc) with
+          | nil => exact absurd hh hne
+          | cons _ _ => rfl
+        rw [e]; exact this
+    have hval : Syntax.parseObj f' (Syntax.skipWsAll (renderSep g ++ (bytesOf v ++ (bytesEntries r ++ 62 :: 62 :: restc))))
+        = some (specValue v, Z) := by
+      have e3 : renderSep g ++ (bytesOf v ++ (bytesEntries r ++ 62 :: 62 :: restc)) = renderSep g ++ (coreOf v ++ Z) := by
+        simp [bytesOf_core, Z, List.append_assoc]
+      rw [e3, skip_to_core g hg v hv Z]
+      exact parse_tree v hv f' Z (by simp [needEntries] at hf; omega) (fun _ => hZreg) (fun _ => hZref)
+    have e0 : bytesEntries ((k, g, v) :: r) ++ 62 :: 62 :: restc =
+        47 :: (renderName k ++ (renderSep g ++ (bytesOf v ++ (bytesEntries r ++ 62 :: 62 :: restc)))) := by
+      simp [bytesEntries, List.append_assoc]
+    rw [e0, pe_entry _ f' _ _ _ _ hkey hval]
+    show (fun r_1 => ((nameValue k, specValue v) :: r_1.1, r_1.2)) <$>
+      Syntax.parseEntries f' (Syntax.skipWsAll (renderSep (trailOf v) ++ (bytesEntries r ++ 62 :: 62 :: restc))) = _
+    rw [skip_to_entries (trailOf v) hgt r restc, parse_entries r hr f' restc (by simp [needEntries] at hf; omega)]
+    simp [specEntries]
+end
+
+/-! ### the fuel `spellcheck` uses is enough -/
+
+theorem core_le_bytes (t : STree) : (coreOf t).length ≤ (bytesOf t).length := by
+  rw [bytesOf_core]; simp
+
+mutual
+theorem need_le {e : Bool} : ∀ (t : STree), wfE e t → need t + 1 ≤ 2 * (coreOf t).length
+  | .arr g0 items g1, h => by
+    simp only [wfE] at h
+    have := needList_le items h.2.1
+    simp only [need, coreOf, List.length_append, List.length_cons, List.length_nil]
+    omega
+  | .dict g0 es g1, h => by
+    simp only [wfE] at h
+    have := needEntries_le es h.2.1
+    simp only [need, coreOf, List.length_append, List.length_cons, List.length_nil]
+    omega
+  | .null g, h => by obtain ⟨c, tl, hct, _⟩ := core_head (.null g) h; rw [hct]; simp [need]; omega
+  | .bool b g, h => by obtain ⟨c, tl, hct, _⟩ := core_head (.bool b g) h; rw [hct]; simp [need]; omega
+  | .int s d g, h => by obtain ⟨c, tl, hct, _⟩ := core_head (.int s d g) h; rw [hct]; simp [need]; omega
+  | .real s i f g, h => by obtain ⟨c, tl, hct, _⟩ := core_head (.real s i f g) h; rw [hct]; simp [need]; omega
+  | .name i g, h => by obtain ⟨c, tl, hct, _⟩ := core_head (.name i g) h; rw [hct]; simp [need]; omega
+  | .str i g, h => by obtain ⟨c, tl, hct, _⟩ := core_head (.str i g) h; rw [hct]; simp [need]; omega
+  | .hex b g, h => by obtain ⟨c, tl, hct, _⟩ := core_head (.hex b g) h; rw [hct]; simp [need]; omega
+  | .ref a b c d g, h => by obtain ⟨c', tl, hct, _⟩ := core_head (.ref a b c d g) h; rw [hct]; simp [need]; omega
+theorem needList_le {e : Bool} : ∀ (items : List STree), wfListE e items → needList items ≤ 2 * (bytesList items).length + 1
+  | [], _ => by simp [needList, bytesList]
+  | t :: r, h => by
+    simp only [wfListE] at h
+    have h1 := need_le t h.1
+    have h2 := needList_le r h.2.1
+    have h3 := core_le_bytes t
+    simp only [needList, bytesList, List.length_append]
+    omega
+theorem needEntries_le {e : Bool} : ∀ (es : List (List NameItem × List SepItem × STree)), wfEntriesE e es →
+    needEntries es ≤ 2 * (bytesEntries es).length + 1
+  | [], _ => by simp [needEntries, bytesEntries]
+  | (k, g, v) :: r, h => by
+    simp only [wfEntriesE] at h
+    have h1 := need_le v h.2.2.2.1
+    have h2 := needEntries_le r h.2.2.2.2
+    have h3 := core_le_bytes v
+    simp only [needEntries, bytesEntries, List.length_append, List.length_cons]
+    omega
+end
+
+/-- COMPLETENESS of the executable ISO reader on spelled trees, with the values of the C01 theorems:
+    `spellcheck` accepts every well-formed spelling (any separator in front, minimal delimiters,
+    comments, odd hex digit counts included) and returns exactly `specValue t`. -/
+theorem spellcheck_complete {e : Bool} (pad : List SepItem) (hpad : sepOK pad) (t : STree) (h : wfE e t) :
+    Syntax.spellcheck (renderSep pad ++ bytesOf t) = some (specValue t) := by
+  have hgt := trail_ok t h
+  have hskip : Syntax.skipWsAll (renderSep pad ++ bytesOf t) = coreOf t ++ renderSep (trailOf t) := by
+    rw [bytesOf_core]; exact skip_to_core pad hpad t h _
+  have hfuel : need t ≤ 2 * (renderSep pad ++ bytesOf t).length + 2 := by
+    have h1 := need_le t h
+    have h2 := core_le_bytes t
+    simp only [List.length_append]
+    omega
+  have hreg : coreReg t = true → Syntax.isRegular ((renderSep (trailOf t)).headD 32) = false := by
+    intro _
+    cases hg : trailOf t with
+    | nil => simp [renderSep]; decide
+    | cons i gr =>
+      rw [hg] at hgt
+      have := sep_head_nonreg (i :: gr) hgt (by simp) []
+      simpa using this
+  have href : uintInt t = true → Syntax.parseRefTail (renderSep (trailOf t)) = none := by
+    intro _
+    apply refTail_none_1
+    have : Syntax.skipWsAll (renderSep (trailOf t)) = [] := by
+      have := skip_sep (trailOf t) hgt []
+      simpa [skip_nil] using this
+    simp [run1, this, Syntax.takeRegular, Syntax.unsignedInt]
+  have hp := parse_tree t h _ (renderSep (trailOf t)) hfuel hreg href
+  have hend : Syntax.skipWsAll (renderSep (trailOf t)) = [] := by
+    have := skip_sep (trailOf t) hgt []
+    simpa [skip_nil] using this
+  unfold Syntax.spellcheck
+  rw [hskip, hp]
+  simp [hend]
+
 end PdfVerif.SpecSound
